@@ -28,7 +28,7 @@ Init1 == [tg |-> {Target(T1, "executable", <<>>, {FA}, {}, {<<"install", VBool(T
           pk |-> {Positional, <<"version", Ver1>>}, dopts |-> {<<Opt, O1>>},
           vars |-> {<<X1, VTgt(T1)>>, <<X2, VTgt(T2)>>}]
 Init2 == [tg |-> {Target(T1, "executable", <<>>, {FA, FB}, {}, {<<"link_with", VArr(<<>>)>>})},
-          pk |-> {Positional}, dopts |-> {}, vars |-> {<<X1, VTgt(T1)>>}]
+          pk |-> {Positional}, dopts |-> {}, vars |-> {<<X1, VTgt(T1)>>, <<X2, VStr(<<122>>)>>}]      \* x2 = 'z'
 \* two targets of the same name: every command addressing the name must be refused
 Init3 == [tg |-> {Target(T1, "executable", <<>>, {FA}, {}, {}), Target(T1, "static_library", <<>>, {FB}, {}, {})},
           pk |-> {Positional}, dopts |-> {}, vars |-> {}]
